@@ -104,7 +104,7 @@ def has_sym(x):
     """Does formatting x need the engine?"""
     if isinstance(x, (TStr, Sym)):
         return True
-    if type(x) in (tuple, list):
+    if isinstance(x, (tuple, list)):
         return any(has_sym(i) for i in x)
     if type(x) is dict:
         return any(has_sym(i) for i in x.values())
@@ -634,6 +634,15 @@ class SxIO:
             return self.tell()
         if whence != 0:
             raise EngineLimit("seek whence")
+        try:
+            d = z3.simplify(self._length() - term(off))
+        except EngineLimit:
+            d = None
+        if d is not None and z3.is_int_value(d) and 0 <= d.as_long() <= 8:
+            # a position a few characters before the end: keep appending semantics
+            self.pos = None
+            self.back = d.as_long()
+            return off
         self.pos = z3.simplify(term(off))
         return off
 
